@@ -120,6 +120,7 @@ def declared(node, names):
 
 class Monitor:
     def __init__(self, mode="exact", pids=("C01", "C03", "C06", "C12"), tol=1e-7, cfg=None):
+        self.deposited = {}
         self.cfg = cfg
         self.mode = mode
         self.pids = set(pids)
@@ -146,9 +147,29 @@ class Monitor:
             return all(x >= 0 for x in a)
         return all(x >= -self.tol * max(1.0, scale) for x in a)
 
+    def watch_deposition(self, model):
+        """record what every surface's simple_deposition declares per timestep (C17 oracle)"""
+        self.deposited = {}
+        if getattr(self, "_dep_wrapped", None) is model:
+            return
+        self._dep_wrapped = model
+        for n in model.nodes.values():
+            for i, sf in enumerate(getattr(n, "surfaces", []) or []):
+                if any(getattr(f, "__name__", "") == "simple_deposition" for f in sf.inflows):
+                    def mk(orig, key):
+                        def w():
+                            out = orig()
+                            self.deposited[key] = dict(out[0])
+                            return out
+                        w.__name__ = "simple_deposition"
+                        return w
+                    sf.inflows = [mk(f, (n.name, i)) if getattr(f, "__name__", "") == "simple_deposition" else f for f in sf.inflows]
+
     def on_pre(self, model, date):
         names = _names()
         self.names = names
+        if "C17" in self.pids:
+            self.watch_deposition(model)
         self.pre = {n.name: (node_stock(n, names), node_decayed(n, names)) for n in model.nodes.values()}
         self.pre_arcs = {a.name: arc_transit(a, names) for a in model.arcs.values()}
         # a decaying arc decays its queue at close-out "for the following timestep" and starts that timestep with this
@@ -249,7 +270,7 @@ def _boundary(self, model, date):
     def close(a, b, scale=1):
         return self.eq((a,), (b,), scale)
 
-    for nd in self.cfg["nodes"]:
+    for nd in NG.effective_cfg(self.cfg)["nodes"]:
         node = model.nodes[nd["name"]]
         cls = NG.cls_of(nd)
         if cls == "Catchment":
@@ -271,6 +292,14 @@ def _boundary(self, model, date):
             for i, sc in enumerate(nd["surfaces"]):
                 sf = node.surfaces[i]
                 area = num(sc["area"])
+                # deposition is load x area (observed: what simple_deposition declared in this timestep)
+                dep = self.deposited.get((node.name, i))
+                if dep is not None and sc.get("pollutant_load"):
+                    for p in adds:
+                        want = num(sc["pollutant_load"].get(p, 0)) * area
+                        got = num(dep.get(p, 0))
+                        if not close(got, want, want):
+                            self.bad("C17", f"{ds} {sc['type_']} of {node.name}: deposition of {p} is {got} but load x area is {want}")
                 if sc["type_"] == "ImperviousSurface":
                     coef = num(sc.get("et0_to_e", 1))
                 elif sc["type_"] == "PerviousSurface":
